@@ -111,3 +111,41 @@ CHECKS["C10"] = {
          "functions": ["QSolJulData::from(&EnergyProps, &HashMap)"]},
     ],
 }
+
+ROUND = ["f32::round -> exact rewrite via trunc (bit-identical; CBMC's roundf toggles the rounding mode)"]
+
+CHECKS["C07"] = {
+    "title": "window U-value and solar factors",
+    "outside": ["the 0.77 / 5.7 / 0.20 defaults used downstream are decided under C08, C10 and C11"],
+    "harnesses": [
+        {"name": "c07::win_u_mirror", "bound": "every finite f32: Ug,Uf in [0,20], g_n in [0,1], Ff in [0,1], dU in [0,50], user shading factor in [0,1] or absent; glazing/frame present or absent (decoys first in the db)",
+         "kani_args": NOOVF, "cbmc_args": FS, "stubs": FMT + ROUND, "functions": ["WinCons::u_value", "WinCons::g_glwi", "WinCons::g_glshwi", "ConsDb::get_glass", "ConsDb::get_frame", "fround2"]},
+        {"name": "c07::win_u_bounds", "bound": "Ug,Uf in {k/2, k<=12}, Ff in {0,1/4,1/2,3/4,1}, dU in {0,25,50}", "kani_args": NOOVF, "cbmc_args": FS, "stubs": FMT + ROUND,
+         "functions": ["WinCons::u_value", "fround2"]},
+    ],
+}
+
+CHECKS["C15"] = {
+    "title": "the model checker reports exactly the broken links",
+    "assumptions": ["bridge length is not NaN and not -0.0 (the statement says 'negative length'; is_sign_negative() flags -0.0 - recorded as an observation, not a finding)"],
+    "outside": ["warning texts", "'the warnings returned with the indicators are the checker's' (EnergyIndicators::compute reads the climate statics)", "more than 2 walls / 2 windows / 2 bridges"],
+    "harnesses": [
+        {"name": "c15::check_wall_first", "timeout_quick": 1500, "bound": "1 wall, 2 spaces, 2 constructions; space, construction and adjacent-space links in {valid a, valid b, nil, absent}; exact count; id and level of the first warning read back", "kani_args": NOOVF, "cbmc_args": FS, "stubs": FMT, "functions": ["bemodel::check"]},
+        {"name": "c15::check_win", "bound": "1 window; wall and construction links symbolic; ids read back", "kani_args": NOOVF, "cbmc_args": FS, "stubs": FMT, "functions": ["bemodel::check"]},
+        {"name": "c15::check_tb", "bound": "2 bridges, any f32 length except NaN/-0.0; ids read back", "kani_args": NOOVF, "cbmc_args": FS, "stubs": FMT, "functions": ["bemodel::check"]},
+        {"name": "c15::check_len_111", "bound": "1 wall + 1 window + 1 bridge, every link symbolic: exact number of warnings (ids not read back)", "kani_args": NOOVF, "cbmc_args": FS, "stubs": FMT, "functions": ["bemodel::check"]},
+        {"name": "c15::check_len_222", "tier": "thorough", "bound": "2 walls + 2 windows + 2 bridges: exact number of warnings", "kani_args": NOOVF, "cbmc_args": FS, "stubs": FMT, "functions": ["bemodel::check"]},
+    ],
+
+}
+
+CHECKS["C16"] = {
+    "title": "purging removes exactly the unreachable items",
+    "outside": ["'leaves K, n50, q_sol;jul unchanged' (the indicators read only reachable items by construction of the retained set; not executed here)", "more than 2 items per collection, more than 1 wall"],
+    "harnesses": [
+        {"name": "c16::purge_envelope", "bound": "3 spaces, 1 wall (space/next_to symbolic), 0..1 window, 2 wall constructions (1 layer), 2 materials, 2 window constructions, 2 glasses, 2 frames, 2 bridges with l in {-1,0,1}; links in {a,b,absent}",
+         "kani_args": NOOVF, "cbmc_args": FS, "stubs": FMT, "timeout_quick": 900, "functions": ["bemodel::purge_unused", "bemodel::check"]},
+        {"name": "c16::purge_usage", "bound": "2 spaces (one possibly unused), 2 loads, 2 thermostats, 2 yearly, 2 weekly, 2 daily schedules; links in {None,a,b,absent}",
+         "kani_args": NOOVF, "cbmc_args": FS, "stubs": FMT, "timeout_quick": 900, "functions": ["bemodel::purge_unused"]},
+    ],
+}
